@@ -25,7 +25,12 @@ import (
 	transfertypes "github.com/cosmos/ibc-go/v8/modules/apps/transfer/types"
 	porttypes "github.com/cosmos/ibc-go/v8/modules/core/05-port/types"
 
+	ismtypes "github.com/bcp-innovations/hyperlane-cosmos/x/core/01_interchain_security/types"
+	pdtypes "github.com/bcp-innovations/hyperlane-cosmos/x/core/02_post_dispatch/types"
+	hypcoretypes "github.com/bcp-innovations/hyperlane-cosmos/x/core/types"
+	warptypes "github.com/bcp-innovations/hyperlane-cosmos/x/warp/types"
 	cctptypes "github.com/circlefin/noble-cctp/x/cctp/types"
+	"github.com/cosmos/gogoproto/proto"
 	ftftypes "github.com/circlefin/noble-fiattokenfactory/x/fiattokenfactory/types"
 
 	"github.com/noble-assets/orbiter/v2/simapp"
@@ -58,6 +63,8 @@ func setConfig() {
 type Sim struct {
 	App *simapp.SimApp
 	Ctx sdk.Context // uncached context of the committed state at height 1
+	// HypTokens maps a denomination to the raw 32-byte id of its Hyperlane collateral token.
+	HypTokens map[string]string
 }
 
 // Options tweak the genesis before InitChain.
@@ -66,6 +73,8 @@ type Options struct {
 	OrbiterGenesis json.RawMessage
 	// ExtraBalances are added to the bank genesis.
 	ExtraBalances []banktypes.Balance
+	// NoHyperlane skips the Hyperlane mailbox / token set-up.
+	NoHyperlane bool
 }
 
 // New boots a fresh chain. A panic inside InitChain is returned as an error.
@@ -178,7 +187,83 @@ func New(opt Options) (s *Sim, err error) {
 	ctx := app.BaseApp.NewUncachedContext(false, cmtproto.Header{
 		ChainID: ChainID, Height: 2, Time: time.Unix(1_700_000_020, 0).UTC(),
 	})
-	return &Sim{App: app, Ctx: ctx}, nil
+	s = &Sim{App: app, Ctx: ctx}
+	if !opt.NoHyperlane {
+		if err := s.setupHyperlane(); err != nil {
+			return nil, fmt.Errorf("hyperlane set-up: %w", err)
+		}
+	}
+	return s, nil
+}
+
+// HypRemoteDomain is the domain the collateral tokens have an enrolled router for.
+const HypRemoteDomain = 1
+
+// setupHyperlane creates, through the app's message router, a no-op ISM and hook, a mailbox, one
+// collateral token per denomination in HypDenoms and an enrolled remote router for HypRemoteDomain.
+func (s *Sim) setupHyperlane() error {
+	owner := Authority
+	run := func(msg sdk.Msg) (*sdk.Result, error) {
+		h := s.App.MsgServiceRouter().Handler(msg)
+		if h == nil {
+			return nil, fmt.Errorf("no handler for %T", msg)
+		}
+		return h(s.Ctx, msg)
+	}
+	r, err := run(&ismtypes.MsgCreateNoopIsm{Creator: owner})
+	if err != nil {
+		return err
+	}
+	var ismResp ismtypes.MsgCreateNoopIsmResponse
+	if err := unpackResp(r, &ismResp); err != nil {
+		return err
+	}
+	r, err = run(&pdtypes.MsgCreateNoopHook{Owner: owner})
+	if err != nil {
+		return err
+	}
+	var hookResp pdtypes.MsgCreateNoopHookResponse
+	if err := unpackResp(r, &hookResp); err != nil {
+		return err
+	}
+	hook := hookResp.Id
+	r, err = run(&hypcoretypes.MsgCreateMailbox{Owner: owner, LocalDomain: 1313817164, DefaultIsm: ismResp.Id,
+		DefaultHook: &hook, RequiredHook: &hook})
+	if err != nil {
+		return err
+	}
+	var mbResp hypcoretypes.MsgCreateMailboxResponse
+	if err := unpackResp(r, &mbResp); err != nil {
+		return err
+	}
+	s.HypTokens = map[string]string{}
+	for _, denom := range HypDenoms {
+		r, err = run(&warptypes.MsgCreateCollateralToken{Owner: owner, OriginMailbox: mbResp.Id, OriginDenom: denom})
+		if err != nil {
+			return err
+		}
+		var tkResp warptypes.MsgCreateCollateralTokenResponse
+		if err := unpackResp(r, &tkResp); err != nil {
+			return err
+		}
+		if _, err = run(&warptypes.MsgEnrollRemoteRouter{Owner: owner, TokenId: tkResp.Id, RemoteRouter: &warptypes.RemoteRouter{
+			ReceiverDomain: HypRemoteDomain, ReceiverContract: "0x00000000000000000000000000000000000000000000000000000000000000aa",
+			Gas: math.NewInt(50000)}}); err != nil {
+			return err
+		}
+		s.HypTokens[denom] = string(tkResp.Id.Bytes())
+	}
+	return nil
+}
+
+// HypDenoms are the denominations with a collateral token.
+var HypDenoms = []string{USDC, "ufoo"}
+
+func unpackResp(r *sdk.Result, into proto.Message) error {
+	if len(r.MsgResponses) != 1 {
+		return fmt.Errorf("expected one message response, got %d", len(r.MsgResponses))
+	}
+	return proto.Unmarshal(r.MsgResponses[0].Value, into)
 }
 
 // Stack returns the transfer stack exactly as the app wires it (blockibc ∘ orbiter ∘ transfer).
